@@ -2,6 +2,8 @@
 
 package objects
 
+import "github.com/apache/yunikorn-scheduler-interface/lib/go/si"
+
 // C10: application life cycle. The real looplab/fsm code and the real transition table are executed.
 
 func succState(from, to string) bool {
@@ -82,6 +84,39 @@ func VerifC10_FailAndReject() {
 		post := app.stateMachine.Current()
 		vAssert(post == s || succState(s, post), "L1 failing an application follows the life cycle")
 		vAssert(post == s || (post != "Completed" && post != "Running"), "L1 failing an application never completes or starts it")
+	}
+	vReach("end")
+}
+
+// L3: state/ledger agreement as a step invariant: an operation on asks or allocations moves the application to
+// Completing only when it holds no asks, no real allocations and no placeholders; it never reaches Completed directly.
+func VerifC10_CompletingOnlyWhenEmpty() {
+	vPanics(false)
+	w := vAppWorld("Accepted", "Running", "Resuming")
+	vAssume(appInv(w))
+	op := vChoice("op", 3)
+	vSplit("op")
+	pre := w.app.stateMachine.Current()
+	switch op {
+	case 0:
+		key := vStr("key", "ask-1", "ask-2", "")
+		w.app.removeAsksInternal(key, si.EventRecord_REQUEST_CANCEL)
+	case 1:
+		key := vStr("rkey", "ask-1", "ask-2")
+		w.app.removeAllocationInternal(key, si.TerminationType(vChoice("tt", 6)))
+	case 2:
+		ask := vAsk("new", "ask-new", false)
+		_ = w.app.AddAllocationAsk(ask)
+	}
+	post := w.app.stateMachine.Current()
+	vAssert(post == pre || succState(pre, post), "L3 operations on asks and allocations follow the life cycle")
+	vAssert(post != "Completed" && post != "Failed", "L3 no single ask/allocation operation terminates a live application")
+	if post == "Completing" {
+		vAssert(len(w.app.requests) == 0 || isZeroRes(w.app.pending), "L3 an application turns Completing only without pending asks")
+		vAssert(len(w.app.allocations) == 0, "L3 an application turns Completing only when it holds no allocation, real or placeholder")
+	}
+	if op == 2 {
+		vAssert(post != "Completing", "L3 adding an ask never leaves the application Completing")
 	}
 	vReach("end")
 }
